@@ -123,6 +123,9 @@ def explore(rep, br, tier, seed):
                 if b >= 256 or (c <= 126 and b != c):
                     bad = {"char": c, "encodes_to": b, "expected": "ASCII identity / one byte"}
                     break
+                if 0xC0 <= b < 0x100 and c != ord(koi[b - 0xC0]):
+                    bad = {"char": c, "char_text": chr(c), "encodes_to": b, "expected": f"refused: on 0xC0-0xFF only KOI8-R's U+{ord(koi[b-0xC0]):04X} may encode to byte {b:#x}"}
+                    break
         rep.violate("table:" + str(bad), "the bk codec is not the required bijection (judged in Coq: Run.C14Run.prop_tables)", bad,
                     replay="bytes([b]).decode('bk') / chr(c).encode('bk')")
     flat = []
